@@ -6,6 +6,7 @@
     the theorems of C08 on where the writes go).  Known finding D15. *)
 From stdpp Require Import gmap list.
 From Coq Require Import NArith ZArith.
+From VFS Require Import Proofs.OvlLayers.
 From VFS Require Import Core.Types Core.Prog Core.Calls Base.MemFS Base.Handles Base.Store Layer.VfsPath Layer.Overlay Layer.Config Layer.Run
   Spec.Tree Proofs.MemProofs Proofs.MemPublic Proofs.ConcProofs Proofs.OvlProofs Proofs.OvlList Proofs.OvlLife Proofs.CopyFile Proofs.OvlAppend Proofs.OvlDeep.
 
@@ -262,6 +263,55 @@ Proof. vm_compute. reflexivity. Qed.
 
 Print Assumptions C09_served_from_first_layer.
 Print Assumptions C09_exists_is_union.
+(** ** any number of layers: WHICH layer serves a path.  Write layer s0, lower layers ss (any number, any contents):
+    the write layer if it holds the path; else nothing if its marker is there; else the FIRST lower layer that holds
+    it - never a later one, whatever that holds - and resolving changes nothing *)
+Theorem C09_layer_precedence : forall hs lg ft (s0 : mstate) (ss : list mstate) (p : path), p <> [] ->
+  run bhandler (read_path (vk 0, []) (lowers 1 (length ss)) p) (nstore hs lg ft (s0 :: ss)) =
+  (nstore hs lg ft (s0 :: ss),
+   if bool_decide (is_Some (s0 !! p)) then Ok (vk 0, p)
+   else if bool_decide (is_Some (s0 !! whiteout_path (vk 0, []) p)) then fail ENotFound
+   else match first_holding 1 ss p with Some lp => Ok lp | None => fail ENotFound end).
+Proof. exact read_path_layers. Qed.
+
+Theorem C09_first_holder_serves : forall hs lg ft (s0 : mstate) (ss1 : list mstate) (s : mstate) (ss2 : list mstate) (p : path),
+  p <> [] -> s0 !! p = None -> s0 !! whiteout_path (vk 0, []) p = None ->
+  Forall (fun s' => s' !! p = None) ss1 -> is_Some (s !! p) ->
+  run bhandler (read_path (vk 0, []) (lowers 1 (length (ss1 ++ s :: ss2))) p) (nstore hs lg ft (s0 :: ss1 ++ s :: ss2)) =
+  (nstore hs lg ft (s0 :: ss1 ++ s :: ss2), Ok (vk (1 + length ss1), p)).
+Proof. exact first_holder_serves. Qed.
+
+Theorem C09_metadata_of_first_holder : forall hs lg ft (s0 : mstate) (ss1 : list mstate) (s : mstate) (ss2 : list mstate) (p : path) f,
+  p <> [] -> s0 !! p = None -> s0 !! whiteout_path (vk 0, []) p = None ->
+  Forall (fun s' => s' !! p = None) ss1 -> s !! p = Some f ->
+  run bhandler (ovl_metadata (vk 0, []) (lowers 1 (length (ss1 ++ s :: ss2))) p) (nstore hs lg ft (s0 :: ss1 ++ s :: ss2)) =
+  (nstore hs lg ft (s0 :: ss1 ++ s :: ss2), Ok (mem_meta f)).
+Proof. exact metadata_of_first_holder. Qed.
+
+Theorem C09_exists_through_layers : forall hs lg ft (s0 : mstate) (ss : list mstate) (p : path), p <> [] ->
+  run bhandler (ovl_exists (vk 0, []) (lowers 1 (length ss)) p) (nstore hs lg ft (s0 :: ss)) =
+  (nstore hs lg ft (s0 :: ss),
+   Ok (bool_decide (is_Some (s0 !! p)) ||
+       (negb (bool_decide (is_Some (s0 !! whiteout_path (vk 0, []) p))) && bool_decide (Exists (fun s => is_Some (s !! p)) ss)))).
+Proof. exact exists_layers. Qed.
+
+(** listings: the names the overlay gathers for a directory are those of EVERY layer in which the path is a directory
+    (the write layer first; the deletion markers are subtracted afterwards, see C09_listing_merges_layers) *)
+Theorem C09_gathered_names_all_layers : forall hs lg ft (s0 : mstate) (ss : list mstate) (p : path) n,
+  exists names,
+    run bhandler (gather (layers (vk 0, []) (lowers 1 (length ss))) p []) (nstore hs lg ft (s0 :: ss)) =
+      (nstore hs lg ft (s0 :: ss), Ok names) /\
+    (n ∈ names <-> Exists (fun s => is_dir s p /\ is_Some (s !! (p ++ [n]))) (s0 :: ss)).
+Proof. exact gathered_names. Qed.
+
+(** four layers: /x is a FILE in the second lower layer and a DIRECTORY in the third; the overlay shows the file *)
+Example C09_layers_example :
+  let file := mkMemFile File [104%N; 105%N] TAuto (Some TAuto) (Some TAuto) in
+  let dir := mkMemFile Dir [] TAuto (Some TAuto) (Some TAuto) in
+  let ss := [mem_new; <[[[120%N]] := file]> mem_new; <[[[120%N]] := dir]> mem_new] in
+  snd (run bhandler (ovl_metadata (vk 0, []) (lowers 1 3) [[120%N]]) (nstore [] [] None (mem_new :: ss))) = Ok (mem_meta file).
+Proof. vm_compute. reflexivity. Qed.
+
 Print Assumptions C09_example.
 Print Assumptions C09_metadata_from_first_layer.
 Print Assumptions C09_bytes_from_upper.
@@ -282,3 +332,9 @@ Print Assumptions C09_collision_hypothesis_is_needed.
 Print Assumptions C09_remove_dir_any_depth.
 Print Assumptions C09_remove_absent.
 Print Assumptions C09_append_any_depth.
+Print Assumptions C09_layer_precedence.
+Print Assumptions C09_first_holder_serves.
+Print Assumptions C09_metadata_of_first_holder.
+Print Assumptions C09_layers_example.
+Print Assumptions C09_exists_through_layers.
+Print Assumptions C09_gathered_names_all_layers.
